@@ -192,8 +192,14 @@ def run_bracket(case):
                 'raised although no callback raises (every callback '
                 'brackets its work with disable/enable)', 'no exception',
                 f'{type(exc).__name__}', pending=n)
-        # what happened to the events is part of the same witness
-        d.dispatch_enabled = True
+        # what happened to the events is part of the same witness (the
+        # remainder may be long enough to overflow the stack again)
+        for _ in range(20):
+            try:
+                d.dispatch_enabled = True
+                break
+            except RecursionError:
+                continue
     import collections
     got = collections.Counter(log)
     lost = [(h, t) for h in range(len(hs)) for t in range(n)
